@@ -93,7 +93,11 @@ def quote_module(seed):
     st += [S("contains"), S(f"subroutine qs{seed % 1000}()", [f"qds doc"], kind="open")]
     for i in range(rng.randint(1, 3)):
         st.append(S("print *, " + ", ".join(rng.sample(QLITS, rng.randint(1, 3))), kind="exec"))
-    st += [S(f"end subroutine qs{seed % 1000}", kind="end"), S(f"end module qm{seed % 1000}", kind="end")]
+    # five-digit labels (the label field is full) on a call without argument list and on a FORMAT statement
+    st.append(S(f"call qh{seed % 1000}", kind="exec", label=str(rng.randint(10000, 99999))))
+    st.append(S("format (i5, a)", kind="exec", label=str(rng.randint(1000, 9999)) + "7"))
+    st += [S(f"end subroutine qs{seed % 1000}", kind="end"), S(f"subroutine qh{seed % 1000}", [f"qdh doc"], kind="open"), S(f"end subroutine qh{seed % 1000}", kind="end"),
+           S(f"end module qm{seed % 1000}", kind="end")]
     return st
 
 
